@@ -1,6 +1,10 @@
 """C12 — format and print render the documented format mini-language."""
+import concurrent.futures as cf
 import itertools
+import os
+import subprocess
 
+import vlib
 import wire
 from props import c11
 from vlib import Case
@@ -11,16 +15,75 @@ RULE = ("op `builtin format <fmt> <args>` through the real VM vs the Lean model 
         "non-trivial = the spec constrained the output")
 ASSUMPTIONS = ["padding counts bytes: padded specifiers are constrained only for ASCII fills and arguments (the property's quantifier)",
                "values other than integers, strings, booleans and null have no documented text: only 'no crash' is demanded for them",
-               "print/println/eprint/eprintln share format_buf; their byte count is covered by the theorem print_len on the model and by the C24 end-to-end engine"]
+               "print/println/eprint/eprintln: op `print <name> <fmt> <args>` runs `let n = NAME(...)` through the real binary (dev profile) and compares the text written "
+               "(stdout or stderr) and the integer returned with the model (printLen) and with the reference renderer's text and its byte length"]
+BINARY_PROFILES = ["dev"]
 canon = c11.canon
 
 
 def nontrivial(c):
-    return c.spec.startswith(("m ok", "eq rterr"))
+    return c.spec.startswith(("m ok", "eq rterr", "eq ok"))
 
 
 def classify(c):
     return "format " + c.line.split(" ")[2][:40]
+
+
+def src_of(tok):
+    """p2sh source text of a wire value (only the kinds the print cases use)"""
+    if tok.startswith("i:"):
+        return tok[2:] if not tok.startswith("i:-") else "(0 - " + tok[3:] + ")"
+    if tok.startswith("s:"):
+        return '"' + bytes.fromhex(tok[2:]).decode("utf-8") + '"'
+    return {"t": "true", "f": "false", "n": "null"}[tok]
+
+
+def run_print(exe, scratch, idx, c):
+    w = c.line.split(" ")
+    name, toks = w[1], w[2:]
+    src = f'let n = {name}({", ".join(src_of(t) for t in toks)}); puts(""); puts("@@N ", n);\n'
+    path = os.path.join(scratch, f"p{idx}.p2")
+    with open(path, "w", encoding="utf-8") as f:
+        f.write(src)
+    try:
+        p = subprocess.run([exe, path], stdin=subprocess.DEVNULL, stdout=subprocess.PIPE, stderr=subprocess.PIPE, timeout=20)
+    except subprocess.TimeoutExpired:
+        return "HANG"
+    if b"panicked" in p.stderr:
+        return "PANIC"
+    if p.returncode < 0:
+        return "ABORT"
+    if b"Runtime error" in p.stderr or b"runtime error" in p.stderr:
+        return "rterr"
+    if b"error" in p.stderr and b"@@N" not in p.stdout:
+        return "cerr " + p.stderr.decode("utf-8", "replace")[:80]
+    head, sep, tail = p.stdout.rpartition(b"\n@@N ")
+    if not sep:
+        return "noresult"
+    text = p.stderr if name.startswith("e") else head
+    return f"ok text={text.hex()} n={tail.decode().strip()}"
+
+
+def run_impl(ctx, cases):
+    outs = [None] * len(cases)
+    hidx = [k for k, c in enumerate(cases) if not c.line.startswith("print ")]
+    if ctx.harness:
+        hout = vlib.run_parallel(ctx.harness, [cases[k].line for k in hidx], timeout=120, label="harness")
+    else:
+        hout = ["NOHARNESS"] * len(hidx)
+    for k, o in zip(hidx, hout):
+        outs[k] = o
+    pidx = [k for k, c in enumerate(cases) if c.line.startswith("print ")]
+    exe = ctx.p2sh.get("dev")
+    if not exe:
+        for k in pidx:
+            outs[k] = "NOHARNESS"
+    else:
+        scratch = ctx.mkscratch()
+        with cf.ThreadPoolExecutor(max_workers=16) as ex:
+            for k, o in zip(pidx, ex.map(lambda k: run_print(exe, scratch, k, cases[k]), pidx)):
+                outs[k] = o
+    return outs
 
 
 INDEX = ["", "0", "1", "2"]
@@ -72,4 +135,15 @@ def cases(ctx):
     for v in [wire.i(1), wire.NULL, wire.a()]:
         out.append(Case(f"builtin format {v}", ("non-string",)))
     out.append(Case("builtin format", ("arity0",)))
+    # the print family, end to end: text written and byte length returned
+    PARGS = [wire.i(42), wire.i(-7), wire.s("hi"), wire.s("naïve"), wire.s("→日本"), wire.s(""), wire.TRUE, wire.NULL]
+    plits = ["", "a", "é", "→ ", "{{", "}}", "日本", "x{{é}}"]
+    simple = ["{}", "{0}", "{1}", "{:>5}", "{:*<4}", "{x}", "{:b}", "{0:o}"]
+    for _ in range(ctx.scale(400, 20000)):
+        name = rng.choice(["print", "println", "eprint", "eprintln"])
+        items = [rng.choice(simple) if rng.random() < 0.5 else rng.choice(plits) for _ in range(rng.randint(1, 4))]
+        args = [rng.choice(PARGS) for _ in range(rng.randint(0, 3))]
+        out.append(Case(f"print {name} {wire.s(''.join(items))} {' '.join(args)}".rstrip(), ("print-family",)))
+    for name in ["print", "println", "eprint", "eprintln"]:
+        out.append(Case(f"print {name} {wire.i(5)}", ("print-family",)))
     return out
